@@ -439,27 +439,36 @@ def r13_5(ctx):
     # the optimize test guarding the pop lies on every path
     r.ob("children builder pops exactly once under optimize", okp, C.mloc(mb, mb["blocks"][pops[0]]["term"]) if pops else "-", "pop in bb%s" % pops)
     # expression vs spread children: same treatment of identifiers
-    blocks = []
-    for n in walk(ch["body"]):
-        if n.get("k") == "If" and field_path(strip_transparent(n["cond"])) == "self.options.optimize":
-            if any(x.get("k") == "MethodCall" and x["method"] == "fill" for x in walk(n["then"])):
-                blocks.append(n)
-    if len(blocks) >= 2:
-        def ident_arm(bl):
-            for m in walk(bl["then"]):
-                if m.get("k") == "Match":
-                    for a in m["arms"]:
-                        if pat_str(a["pat"]).startswith("Ident("):
-                            return expr_str(m["scrut"], names={}) + " :: " + pat_str(a["pat"]) + (" if " + expr_str(a["guard"], names={}) if a.get("guard") is not None else "") + " => " + expr_str(a["body"], names={})
-            return expr_str(bl["then"], names={})
-        texts = {ident_arm(b) for b in blocks}
-        r.ob("expression and spread children mark bound identifiers identically", len(texts) == 1, C.mloc(ch, blocks[0]),
-             "%d optimize blocks with fill(), %d distinct shape(s)" % (len(blocks), len(texts)))
-        t = next(iter(texts))
-        ok = "has_mark" in t and "unresolved_mark" in t and "Dynamic" in t and "!" in t and ".fill(" in t
-        r.ob("fill(Dynamic) happens for identifiers that are not unresolved", ok, C.mloc(ch, blocks[0]), t[:200])
-    elif len(blocks) == 1:
-        r.ob("expression and spread children mark bound identifiers identically", None, C.mloc(ch, blocks[0]), "one shared block (helper extracted?)")
+    idx = HirIndex(ch)
+    fills = [n for n in walk(ch["body"]) if n.get("k") == "MethodCall" and n["method"] == "fill" and (field_path(strip_transparent(n["recv"])) or "").endswith("slot_flag_stack")
+             and n["args"] and "Dynamic" in expr_str(n["args"][0])]
+    kinds = {}
+    for f in fills:
+        facts = idx.known_true(f)
+        texts = []
+        for fc in facts:
+            neg = isinstance(fc, tuple)
+            node = fc[1] if neg else fc
+            texts.append(("!" if neg else "") + expr_str(node, names={}))
+        arms = [p for p in idx.parents(f) if p.get("k") == "Arm"]
+        is_ident = any(pat_str(a["pat"]).startswith("Ident(") for a in arms) or any(t.startswith("let Ident(") for t in texts)
+        under_opt = any(re.fullmatch(r"v\d+\.options\.optimize", t) for t in texts)
+        bound = any(t.startswith("!") and re.search(r"has_mark\(v\d+\.unresolved_mark\)", t) for t in texts)
+        kind = None
+        for a in arms:
+            ps = pat_str(a["pat"])
+            if "JSXExprContainer" in ps:
+                kind = "expression"
+            elif "JSXSpreadChild" in ps:
+                kind = "spread"
+        ok = is_ident and under_opt and bound
+        kinds.setdefault(kind or "?", []).append(ok)
+        r.ob("fill(Dynamic) for a %s child happens under optimize, for an identifier that is not unresolved" % (kind or "?"), ok, C.mloc(ch, f),
+             "facts at the call: %s" % texts[:6] + ("; identifier arm" if is_ident else "; NOT restricted to identifier children"))
+    if fills:
+        both = all(kinds.get(k) and all(kinds[k]) for k in ("expression", "spread"))
+        r.ob("expression and spread children mark bound identifiers identically", both, C.mloc(ch, fills[0]),
+             "fill(Dynamic) under the same three conditions for %s children" % sorted(kinds) if both else "marking present for %s only" % sorted(k for k in kinds if all(kinds[k])))
     else:
         r.ob("bound identifier children mark the slot dynamic", False, C.mloc(ch, ch), "no `fill(SlotFlag::Dynamic)` under optimize in the children builder")
     return r
